@@ -1222,7 +1222,9 @@ pub fn c08(rec: &mut Rec, lm: &Landmarks, rng: &mut Rng, thorough: bool) {
         for (k, ts) in [TimeScale::TAI, TimeScale::UTC, TimeScale::GPST].iter().enumerate() {
             m.rec.episode();
             let tsv = *ts;
-            let r = crate::rec::with_deadline(20, move || Epoch::maybe_from_gregorian(y, 1 + (k as u8) * 5, 1, 0, 0, 0, 0, tsv).map_err(|_| ()));
+            // (the first of January, the last minute of June and of December: the leap second rule looks at year + 1)
+            let (mo, d, hh, mi, ss) = [(1u8, 1u8, 0u8, 0u8, 0u8), (6, 30, 23, 59, 60), (12, 31, 23, 59, 0)][k];
+            let r = crate::rec::with_deadline(20, move || Epoch::maybe_from_gregorian(y, mo, d, hh, mi, ss, 0, tsv).map_err(|_| ()));
             let res = match &r {
                 Some(Ok(Ok(e))) => jepoch(*e),
                 Some(Ok(Err(_))) => "{\"err\":1}".to_string(),
